@@ -430,6 +430,8 @@ pub fn parse_lct_header(data: &[u8]) -> Result<LCTHeader> {
 pub fn get_ext<'a>(data: &'a [u8], lct: &LCTHeader, ext: u8) -> Result<Option<&'a [u8]>> {
     let mut lct_ext_ext = &data[(lct.header_ext_offset as usize)..lct.len];
     while lct_ext_ext.len() >= 4 {
+        #[cfg(feature = "ypo_flute_verif")]
+        crate::verif::tick("lct::get_ext");
         let het = lct_ext_ext[0];
         let hel = match het {
             het if het >= 128 => 4_usize,
